@@ -131,6 +131,15 @@ Theorem C10_barrel_get : forall (A : Type) (ls : barrel (A := A)) (i : nat),
 Proof. exact @bl_get_flat. Qed.
 Print Assumptions C10_barrel_get.
 
+(* b[-k]: k-th item from the end, IndexError further back than the first item *)
+Theorem C10_barrel_get_neg : forall (A : Type) (ls : barrel (A := A)) (k : nat),
+  ls <> [] -> 0 < k ->
+  bl_get ls (- Z.of_nat k)%Z =
+  match (if k <=? length (concat ls) then nth_error (concat ls) (length (concat ls) - k) else None) with
+  | Some v => Ok v | None => Raise IndexError end.
+Proof. exact @bl_get_neg_flat. Qed.
+Print Assumptions C10_barrel_get_neg.
+
 Theorem C10_barrel_len : forall (A : Type) (ls : barrel (A := A)), bl_len ls = length (concat ls).
 Proof. exact @bl_len_concat. Qed.
 Print Assumptions C10_barrel_len.
@@ -165,8 +174,9 @@ Print Assumptions C10_barrel_refines_list.
 Example C10_barrel_example :
   let ls : barrel (A := nat) := [[]; [10; 11]; []; [12]; [13; 14; 15]] in
   ls <> [] /\
-  bl_run (fun _ => 2) ls [BInsert 7 99; BInsert 0 98; BPop 3; BGet 6; BGet 7; BPop 0; BLen; BList]
-  = [BNone; BNone; BVal 12; BVal 99; BErr IndexError; BVal 98; BLenIs 6; BItems [10; 11; 13; 14; 15; 99]].
+  bl_run (fun _ => 2) ls [BInsert 7 99; BInsert 0 98; BPop 3; BGet 6; BGet 7; BPop 0; BGetNeg 1; BGetNeg 6; BGetNeg 7; BLen; BList]
+  = [BNone; BNone; BVal 12; BVal 99; BErr IndexError; BVal 98; BVal 99; BVal 10; BErr IndexError; BLenIs 6;
+     BItems [10; 11; 13; 14; 15; 99]].
 Proof. split; [discriminate | vm_compute; reflexivity]. Qed.
 
 (* ---- drained big histories: the checker used for queues of tens of thousands ---- *)
